@@ -52,7 +52,8 @@ LocationOK(r, e) ==
   IN \A k \in DOMAIN e.locs :
        /\ e.locs[k].line \in 1..Len(lens)
        /\ e.locs[k].col <= lens[e.locs[k].line] + 2
-       /\ (e.key # "" /\ keyLines # {}) => e.locs[k].line \in keyLines
+       \* (an error addressed by a path may also stand at a token its message names - the argument, not the field)
+       /\ (e.key # "" /\ keyLines # {}) => e.locs[k].line \in keyLines \cup nameLines
        /\ (e.key = "" /\ nameLines # {}) => e.locs[k].line \in nameLines
        \* the request was refused for an injected directive defect: the harness knows on which line(s) it stands
        /\ (e.key = "" /\ "offLines" \in DOMAIN r /\ r.offLines # <<>>) => e.locs[k].line \in Range(r.offLines)
